@@ -190,6 +190,17 @@ func driveC13(seed int64, tier, out, replay string) {
 			}
 		}
 	}
+	if replay == "" {
+		// shapes on the hand-written federation, each sent as often as the generated ones (helpers reaching one level
+		// through several fragments, fix 2e934d6; the regression shapes of C01)
+		for i, q := range append([]string{
+			`{ me { ... on Human { name } ... on Node { uid: id } } }`,
+			`{ me { ... on Node { uid: id } ... on Human { name } } humans { ... on Human { friend { phone } } ... on Node { nid: id } } }`,
+			`{ pets { ... on Pet { kind } ... on Node { pid: id } owner { ... on Human { phone } ... on Node { hid: id } } } }`,
+		}, handShapes...) {
+			cases = append(cases, c13Case{Domain: "hand", OpSeed: int64(i), Op: &gen.GenOp{Query: q, Kind: "query", Features: []string{"hand_shape"}}, Perturb: rng.Int63()})
+		}
+	}
 	// listed findings: an operation on the hand-written federation whose answers differ between sends
 	if hand, err := NewRig(handWorld(), RigConfig{}); err == nil {
 		for _, kf := range loadKnown("C13") {
